@@ -281,3 +281,86 @@ def rule_idcmp(ctx):
         raise AnalysisError("R-IDCMP positive control not reported")
     res.inst("poscontrol:idcmp(%d)" % len(pc), None, None, "ok", "positive control fired")
     return res
+
+
+def rule_cutvar(ctx):
+    """R-CUTVAR: the eta-expansion of a variable/covariable cut matches on the value and invokes the continuation"""
+    from .. import interp as _interp
+    from ..interp import Adt as _Adt, Sym as _Sym, Vec as _Vec, SetVal as _SetVal
+    from .linear import _MutInt
+    fx = ctx.fx
+    res = RuleResult("R-CUTVAR", "`shrink_unknown_cuts` folded at a data type and at a codata type (two xtors each, with arguments): in the AxCut "
+                     "statement produced for the cut <x | a>, `switch` scrutinises the side whose AxCut chirality is producer (x at a data "
+                     "type, a at a codata type - a destructor value), every clause binds fresh variables for the xtor's arguments and "
+                     "`invoke`s the same xtor with exactly those variables on the other side (the closure). Swapping the sides yields an "
+                     "ill-typed AxCut program (switch on a closure)")
+    key = "core2axcut::statements::cut::shrink_unknown_cuts"
+    f = fx.fn(key)
+    CL = "scc_core_lang::syntax::"
+
+    def ident(nm, i):
+        return _Adt(CL + "names::Identifier", "Identifier", {"name": nm, "id": i})
+
+    def tctx(bs):
+        return _Adt(CL + "context::TypingContext", "TypingContext", {"bindings": _Vec(bs)})
+
+    def cb(nm, i, chi, ty):
+        return _Adt(CL + "context::ContextBinding", "ContextBinding", {"var": ident(nm, i), "chi": _Adt(CL + "context::Chirality", chi, {}), "ty": ty})
+    I64 = _Adt(CL + "types::Ty", "I64", {})
+
+    def decl(marker, name, xtors):
+        return _Adt(CL + "declaration::TypeDeclaration", "TypeDeclaration", {"dat": _Adt(CL + "declaration::" + marker, marker, {}), "name": ident(name, 0), "xtors": _Vec([
+            _Adt(CL + "declaration::XtorSig", "XtorSig", {"xtor": _Adt(CL + "declaration::" + marker, marker, {}), "name": ident(x, 0), "args": tctx(args)}) for x, args in xtors])})
+    data = _Vec([decl("Data", "D", [("K0", []), ("K1", [cb("p", 0, "Prd", I64), cb("q", 0, "Prd", _Adt(CL + "types::Ty", "Decl", {"0": ident("D", 0)}))])])])
+    codata = _Vec([decl("Codata", "C", [("d0", [cb("p", 0, "Prd", I64)]), ("d1", [cb("k", 0, "Cns", I64), cb("p", 0, "Prd", I64)])])])
+    bad = []
+    for tname, is_codata in (("D", False), ("C", True)):
+        I = _interp.Interp(fx, hooks=[], max_depth=12, max_paths=64, max_steps=200000)
+        holder = _Adt(None, None, {"0": 100})
+        state = _Adt("core2axcut::shrinking::ShrinkingState", "ShrinkingState", {
+            "max_id": _MutInt(I, holder), "data": data, "codata": codata, "used_labels": _SetVal(), "current_label": "f", "lifted_statements": _Vec([])})
+        sfr = _interp.Frame({"locals": [{"ty": "ShrinkingState"}], "blocks": [], "key": "<state>"}, [])
+        sfr.locals = [state]
+        sref = _interp.Ref(sfr, 0, [])
+        x, a = ident("x", 1), ident("a", 2)
+        outs = I.run(f, [x, a, _Adt(CL + "types::Ty", "Decl", {"0": ident(tname, 0)}), sref])
+        from ..backend import fold_verdict
+        msg = fold_verdict(outs, "R-CUTVAR: shrink_unknown_cuts at %s" % tname)
+        if msg:
+            bad.append((tname, msg))
+            continue
+        r = [o for o in outs if not getattr(o, "diverged", None)][0].result
+        sw = r.fields.get("0") if isinstance(r, _Adt) and r.variant == "Switch" and isinstance(r.fields.get("0"), _Adt) else r
+        if not (isinstance(sw, _Adt) and "clauses" in sw.fields and isinstance(sw.fields["clauses"], _Vec)):
+            raise AnalysisError("R-CUTVAR: the result of shrink_unknown_cuts at %s is not a concrete switch: %r" % (tname, r))
+        want_sw, want_inv = (2, 1) if is_codata else (1, 2)
+        got_sw = sw.fields["var"].fields.get("id")
+        if got_sw != want_sw:
+            bad.append((tname, "the switch scrutinises %s, expected %s (the side whose AxCut chirality is producer at a %s type)" %
+                        ("x" if got_sw == 1 else "a", "a" if is_codata else "x", "codata" if is_codata else "data")))
+            continue
+        xt = ["d0", "d1"] if is_codata else ["K0", "K1"]
+        for cl, xn in zip(sw.fields["clauses"].items, xt):
+            body = cl.fields.get("body")
+            inv = body.fields.get("0") if isinstance(body, _Adt) and body.variant == "Invoke" and isinstance(body.fields.get("0"), _Adt) else body
+            if not (isinstance(inv, _Adt) and "tag" in inv.fields):
+                bad.append((tname, "the clause for %s does not invoke" % xn))
+                break
+            ids_ctx = [b_.fields["var"].fields["id"] for b_ in cl.fields["context"].fields["bindings"].items]
+            ids_args = [b_.fields["var"].fields["id"] for b_ in inv.fields["args"].fields["bindings"].items]
+            if cl.fields["xtor"].fields.get("name") != xn or inv.fields["tag"].fields.get("name") != xn:
+                bad.append((tname, "clause/tag names %s/%s, expected %s (declaration order)" % (cl.fields["xtor"].fields.get("name"), inv.fields["tag"].fields.get("name"), xn)))
+                break
+            if inv.fields["var"].fields.get("id") != want_inv:
+                bad.append((tname, "the clause for %s invokes the wrong side" % xn))
+                break
+            if ids_ctx != ids_args or len(set(ids_ctx)) != len(ids_ctx) or any(i_ <= 100 for i_ in ids_ctx):
+                bad.append((tname, "the clause for %s binds %s and passes on %s: must be the same fresh, pairwise distinct variables" % (xn, ids_ctx, ids_args)))
+                break
+    if bad:
+        res.inst("unknown-cut", f["sp"]["file"], f["sp"]["line"], "violation")
+        res.violate("unknown-cut", "<x | a> at the %s type %s: %s" % ("codata" if bad[0][0] == "C" else "data", bad[0][0], bad[0][1]), f["sp"]["file"], f["sp"]["line"])
+    else:
+        res.inst("unknown-cut", f["sp"]["file"], f["sp"]["line"], "ok", "data and codata instance")
+    res.require_floor(1)
+    return res
